@@ -163,6 +163,9 @@ func (s *Service) attestOnce(ctx context.Context, duty *attester.Duty) {
 	}
 	s.lastAttestationSlot = slot
 	s.lastAttestationSlotSet = true
+	if s.attestationsInFlight == nil {
+		s.attestationsInFlight = make(map[phase0.Slot]struct{})
+	}
 	s.attestationsInFlight[slot] = struct{}{}
 	s.attestationSlotsMutex.Unlock()
 
